@@ -103,6 +103,14 @@ CLAIMS = {
          "Tie: ~400 spelling groups, every member accepted and all real token streams within a group identical (in-process), model agrees.",
          COMMON_NOTE + "the canonical leaves are a tiny model of syn restricted to the documented token forms; that real syn yields these records is re-validated on every run because the model is fed syn's actual records; general parameter permutations are proved for adjacent swaps under the stated commutation premises.",
          "Lean 4 theorems over canonical oracle records + spelling-group correspondence (B3)"),
+ "C15": ("Theorems scanMetas_skip_other / scanMetas_only_mine / scanMetas_depends_on_own_metas (every attribute scanner's result is a function of "
+         "the metas of its own trait; metas of other traits are only validated as trait names), scanAttrs_skip_other_attribute, "
+         "copy_handler_consults_clone_only (the only reads of the trait set are the three documented couplings; Ctx.traits is a membership "
+         "function so order/re-configuration of other traits cannot be observed - with C16 dispatch_perm). Tie: twin definitions from all "
+         "behavioural generators: alone / with 1-3 other traits and their own attributes on the same fields / with one educed trait and all "
+         "its metas removed; every non-coupled impl's real token stream must be identical across the twins, model agrees.",
+         COMMON_NOTE + "the claim 'handlers read only their own builder's result' is carried by the model's handler signatures (each takes only its own scanned attributes) and tied by the twin correspondence, not by a source-level data-flow analysis.",
+         "Lean 4 theorems over scanner model + twin-definition correspondence (B3)"),
  "C11": ("Theorems auto_preds_shape / auto_preds_only_collected (automatic mode appends one `FieldTy: Trait` per collected type plus the "
          "supertraits on Self, nothing else), struct_body_delegates_exactly + delegated_types_and_operands (the collected types are exactly the "
          "fields on which the generated PartialEq body calls the trait's own method — two independently written parts linked), "
